@@ -568,12 +568,15 @@ func (p *Parser) parseASCIIFast(maxSize int) (secs2.Item, error) {
 }
 
 func (p *Parser) checkASCIICloseQuote(idx int, quoteCh byte) (bool, int) {
-	if idx+1 >= p.len || idx >= p.len || p.data[idx] != quoteCh {
+	// idx indexes p.data (the unread remainder), so it must be bounded by len(p.data), not by
+	// p.len (the length of the whole input): a closing quote at the very end of the input used
+	// to index past p.data and panic.
+	if idx+1 >= len(p.data) || p.data[idx] != quoteCh {
 		return false, 0
 	}
 
 	// skip space characters
-	for nidx := idx + 1; nidx < p.len; nidx++ {
+	for nidx := idx + 1; nidx < len(p.data); nidx++ {
 		switch p.data[nidx] {
 		case ' ', '\t', '\r', '\n':
 			continue
